@@ -374,3 +374,57 @@ Lemma size_guard_refuted :
   forallb (fun s => negb (pm_get m s)) (seq 0 200) = true /\ guarded_admits 128 m 128 = false /\
   guarded_admits 128 m 0 = false.
 Proof. vm_compute. repeat split. Qed.
+
+(* ------------------------------------------------------------------------------------------ *)
+(* Part 11: the order of the release against the sends *)
+
+Lemma open_sends_close_last : forall l, open_sends (l ++ [LClose]) = 0.
+Proof.
+  induction l as [|e l IH]; [reflexivity|].
+  destruct e; cbn [app open_sends]; [|exact IH].
+  rewrite existsb_app. cbn. rewrite orb_true_r. exact IH.
+Qed.
+
+(* the model is accepted: whatever the numbers of sends of the first attempt and of the retry phase *)
+Lemma released_ok_model : forall first retry, released_ok (exec_ledger first retry) = true.
+Proof.
+  intros a b. unfold released_ok, exec_ledger. rewrite app_assoc, open_sends_close_last. reflexivity.
+Qed.
+
+Lemma existsb_lclose_sends : forall n, existsb is_lclose (repeat LSend n) = false.
+Proof. induction n; cbn; auto. Qed.
+
+Lemma open_sends_repeat : forall n, open_sends (repeat LSend n) = n.
+Proof.
+  induction n as [|n IH]; [reflexivity|].
+  cbn [repeat open_sends]. rewrite existsb_lclose_sends, IH. reflexivity.
+Qed.
+
+Lemma open_sends_before_close : forall n r, open_sends (repeat LSend n ++ LClose :: r) = open_sends r.
+Proof.
+  induction n as [|n IH]; intros r; [reflexivity|].
+  cbn [repeat app open_sends]. rewrite existsb_app. cbn. rewrite orb_true_r. apply IH.
+Qed.
+
+(* releasing when the first attempt is over leaves every send of the retry phase unreleased *)
+Lemma early_close_refuted : forall first retry,
+  open_sends (early_close_ledger first retry) = retry /\
+  (1 <= retry -> released_ok (early_close_ledger first retry) = false).
+Proof.
+  intros a b. unfold released_ok, early_close_ledger. cbn [app].
+  rewrite open_sends_before_close, open_sends_repeat. split; [reflexivity|].
+  intros H. apply Nat.eqb_neq. lia.
+Qed.
+
+(* what the judge means: every send is followed by a CloseSession *)
+Lemma released_ok_sound : forall l, released_ok l = true ->
+  forall pre post, l = pre ++ LSend :: post -> In LClose post.
+Proof.
+  unfold released_ok. intros l H pre. apply Nat.eqb_eq in H. revert l H.
+  induction pre as [|e pre IH]; intros l H post ->.
+  - cbn [app open_sends] in H. destruct (existsb is_lclose post) eqn:E; [|cbn in H; lia].
+    apply existsb_exists in E. destruct E as [x [Hin Hx]]. destruct x; [discriminate|exact Hin].
+  - cbn [app] in H. destruct e; cbn [open_sends] in H.
+    + eapply IH; [|reflexivity]. lia.
+    + eapply IH; [|reflexivity]. exact H.
+Qed.
